@@ -161,6 +161,33 @@ func rwLog(format string, args ...any) {
 	}
 }
 
+// rwAtomicDepth: the maximal number of Atomic nodes on a path of the tree
+func rwAtomicDepth(s string) int {
+	var stack []bool
+	depth, best := 0, 0
+	for i := 0; i < len(s); i++ {
+		switch s[i] {
+		case '(':
+			at := strings.HasPrefix(s[i:], "(atomic ")
+			stack = append(stack, at)
+			if at {
+				depth++
+				if depth > best {
+					best = depth
+				}
+			}
+		case ')':
+			if n := len(stack); n > 0 {
+				if stack[n-1] {
+					depth--
+				}
+				stack = stack[:n-1]
+			}
+		}
+	}
+	return best
+}
+
 type rwPrepared struct {
 	gt       *gen.GoTree
 	re2      bool
@@ -229,6 +256,11 @@ func rwCheck(c *core.Ctx, cases []czCase) []core.Outcome {
 			o.Buckets = append(o.Buckets, "trees-equal")
 			continue
 		}
+		if rwAtomicDepth(r1.Sexp) > 10 {
+			// cert evaluates both alternatives of its Atomic case: exponential in the nesting depth of Atomic nodes
+			o.Buckets = append(o.Buckets, "skipped:atomic-nesting>10")
+			continue
+		}
 		t0, e0 := parseSx(g0.Sexp)
 		t1, e1 := parseSx(g1.Sexp)
 		if e0 != nil || e1 != nil {
@@ -243,6 +275,12 @@ func rwCheck(c *core.Ctx, cases []czCase) []core.Outcome {
 		send = append(send, fmt.Sprintf("(c05 rwcert %s %s %s (disj %s) (uni %s))", core.SBool(rtl), r0.Sexp, r1.Sexp, strings.Join(disj, " "), strings.Join(uni, " ")))
 		refs = append(refs, ref{i, "rwcert"})
 		o.Nontrivial = true
+	}
+	if d := os.Getenv("RW_DUMP"); d != "" {
+		if f, err := os.OpenFile(d, os.O_APPEND|os.O_CREATE|os.O_WRONLY, 0o644); err == nil {
+			fmt.Fprintln(f, strings.Join(send, "\n"))
+			f.Close()
+		}
 	}
 	res, err := c.RunDriver(send)
 	if err != nil {
